@@ -260,6 +260,9 @@ pub enum Fault {
     Swap(usize, usize),
     /// Replace the signal at position .0 by config signal .1 (value keeps flowing)
     Substitute(usize, usize),
+    /// Replace the signal at position .0 by a look-alike of itself: same name, but another type
+    /// (.1 = 0), another width (1) or another default (2; falls back to the width for plain outputs)
+    SubstituteTwin(usize, u8),
 }
 
 #[derive(Clone, Debug, PartialEq, Eq, Hash, Serialize, Deserialize)]
